@@ -1,12 +1,12 @@
 /-
-Spec/ByteLayout.lean — bytes ↔ tokens for the sublanguage "message set of uncompressed v2 record batches, not
-truncated" (core Lean only).
+Spec/ByteLayout.lean — bytes ↔ tokens (core Lean only).
 
-`encSetV2` is the reference encoder (Spec/RecordBatch.lean `encFrame`, `encRecs`: the published record-batch format);
-`tokenizeSet` reads bytes back into the token stream of Model/MessageSetReader.lean.  `Lemmas/ByteLayout.lean` proves
-`tokenizeSet (encSetV2 bs) = allTokens (layoutOf bs)`, so `single_fetch` can be stated about bytes for this
-sublanguage (Props/C02 `single_fetch_bytes`).  Truncated sets, compressed payloads and v0/v1 stay tied by the
-byte-level correspondence of the driver only.
+`encSetV2` … are the reference encoders (Spec/RecordBatch.lean: the published record-batch / message-set formats);
+`tokenize` reads a possibly truncated byte string back into the token stream of Model/MessageSetReader.lean the way
+the Go decoder walks it: fixed-size headers are read when all their bytes are there, a record when its length prefix
+and body are there, otherwise the rest is `cut`.  Checksums are not looked at (the Go decoder does not either).
+`Lemmas/ByteLayout.lean` proves `tokenize (take n (enc layout)) = truncate (tokens layout) n`, so that
+`single_fetch` can be stated about bytes (Props/C02 `single_fetch_bytes`).
 -/
 import KafkaVerif.Spec.RecordBatch
 import KafkaVerif.Spec.Layout
@@ -14,7 +14,94 @@ import KafkaVerif.Spec.Layout
 namespace KV.C02
 open KV KV.RW KV.Spec.RB
 
-/-- an uncompressed v2 batch at byte level: header fields (payload/count fields of `hdr` are ignored) and records -/
+/-- the fields of a v2 batch header the decoder uses -/
+structure H2 where
+  base : Int
+  lod : Int
+  firstTs : Int
+  count : Int
+  attrs : Int
+  plen : Nat
+  deriving DecidableEq, Repr
+
+/-- the 61 header bytes of a v2 batch: everything of `encFrame` before the payload; `crcv` is the checksum field -/
+def encH2 (crcv : Nat) (f : FrameV2) : Bytes :=
+  i64 f.baseOffset ++ (i32 ((9 + (frameBody f).length : Nat) : Int) ++ (i32 f.leaderEpoch ++ (i8 2 ++ (u32 crcv ++
+    (i16 f.attributes ++ (i32 f.lastOffsetDelta ++ (i64 f.firstTs ++ (i64 f.maxTs ++ (i64 f.producerId ++
+    (i16 f.producerEpoch ++ (i32 f.baseSeq ++ i32 f.count)))))))))))
+
+/-- message_reader.go readHeader, `case 2` -/
+def readH2 (bs : Bytes) : Option (H2 × Bytes) :=
+  match readI64 bs with
+  | none => none
+  | some (base, r1) =>
+  match readI32 r1 with
+  | none => none
+  | some (len, r2) =>
+  match readI32 r2 with
+  | none => none
+  | some (_, r3) =>
+  match readI8 r3 with
+  | none => none
+  | some (magic, r4) =>
+  match readU32 r4 with
+  | none => none
+  | some (_, r5) =>
+  match readI16 r5 with
+  | none => none
+  | some (attrs, r6) =>
+  match readI32 r6 with
+  | none => none
+  | some (lod, r7) =>
+  match readI64 r7 with
+  | none => none
+  | some (fts, r8) =>
+  match readI64 r8 with
+  | none => none
+  | some (_, r9) =>
+  match readI64 r9 with
+  | none => none
+  | some (_, r10) =>
+  match readI16 r10 with
+  | none => none
+  | some (_, r11) =>
+  match readI32 r11 with
+  | none => none
+  | some (_, r12) =>
+  match readI32 r12 with
+  | none => none
+  | some (cnt, r13) =>
+    if magic ≠ 2 then none else some (⟨base, lod, fts, cnt, attrs, (len - 49).toNat⟩, r13)
+
+/-- what the pending read of the decoder expects next -/
+inductive TS
+  | hdr
+  | recs (h : H2) (k : Nat)
+  deriving Repr
+
+/-- bytes → tokens; `dg2 firstTimestamp record` digests the observable fields of a v2 record -/
+def tokenize (dg2 : Int → RecV2 → Nat) : Nat → TS → Bytes → List Tok
+  | 0, _, _ => []
+  | fuel + 1, st, bs =>
+    if bs.isEmpty then []
+    else match st with
+      | .hdr =>
+        if bs.length < 61 then [.cut]
+        else match readH2 bs with
+          | none => [.cut]
+          | some (h, rest) =>
+            Tok.h2 h.base h.lod h.count.toNat (h.attrs % 8 != 0) h.plen ::
+              tokenize dg2 fuel (if h.count.toNat = 0 then .hdr else .recs h h.count.toNat) rest
+      | .recs h k =>
+        match readRec bs with
+        | none => [.cut]
+        | some (r, rest) =>
+          Tok.r2 r.offDelta (dg2 h.firstTs r) (bs.length - rest.length) ::
+            tokenize dg2 fuel (if k ≤ 1 then .hdr else .recs h (k - 1)) rest
+
+/-! ### the layouts the reference encoder can emit -/
+
+/-- an uncompressed v2 batch at byte level: header fields (attributes/count/payload of `hdr` are ignored) and records -/
 structure BBatch where
   hdr : FrameV2
   recs : List RecV2
@@ -22,38 +109,15 @@ structure BBatch where
 def BBatch.frame (b : BBatch) : FrameV2 :=
   { b.hdr with attributes := 0, count := (b.recs.length : Int), payload := encRecs b.recs }
 
-/-- the item of Spec/Layout.lean a batch stands for; `dg` digests the observable fields of a record -/
-def BBatch.item (dg : FrameV2 → RecV2 → Nat) (b : BBatch) : Item :=
+/-- the item of Spec/Layout.lean a batch stands for -/
+def BBatch.item (dg2 : Int → RecV2 → Nat) (b : BBatch) : Item :=
   .b2 b.hdr.baseOffset (b.hdr.baseOffset + b.hdr.lastOffsetDelta) false (encRecs b.recs).length
-    (b.recs.map fun r => (r.offDelta, dg b.frame r, (encRec r).length))
+    (b.recs.map fun r => (r.offDelta, dg2 b.hdr.firstTs r, (encRec r).length))
 
 def encSetV2 (crc : Bytes → Nat) : List BBatch → Bytes
   | [] => []
   | b :: bs => encFrame crc b.frame ++ encSetV2 crc bs
 
-def layoutOf (dg : FrameV2 → RecV2 → Nat) (bs : List BBatch) : List Item := bs.map (BBatch.item dg)
-
-/-- one batch from bytes: the header token and one token per record -/
-def tokenizeFrame (crc : Bytes → Nat) (dg : FrameV2 → RecV2 → Nat) (bs : Bytes) : Option (List Tok × Bytes) :=
-  match readFrame crc bs with
-  | none => none
-  | some (f, rest) =>
-    if codecOf f.attributes ≠ 0 then none
-    else match decodeRecs f.count f.payload with
-      | none => none
-      | some recs =>
-        some (Tok.h2 f.baseOffset f.lastOffsetDelta recs.length false f.payload.length ::
-              recs.map (fun r => Tok.r2 r.offDelta (dg f r) (encRec r).length), rest)
-
-def tokenizeSet (crc : Bytes → Nat) (dg : FrameV2 → RecV2 → Nat) : Nat → Bytes → Option (List Tok)
-  | _, [] => some []
-  | 0, _ :: _ => none
-  | fuel + 1, bs =>
-    match tokenizeFrame crc dg bs with
-    | none => none
-    | some (ts, rest) =>
-      match tokenizeSet crc dg fuel rest with
-      | none => none
-      | some ts' => some (ts ++ ts')
+def layoutOf (dg2 : Int → RecV2 → Nat) (bs : List BBatch) : List Item := bs.map (BBatch.item dg2)
 
 end KV.C02
